@@ -525,3 +525,6 @@ LEVEL_TEXT = (
 )
 LEVEL_NOTE = "Trusted: CPython stdlib base64/binascii, the 25-line reference encoders in vpchk/checks/c12.py, Hypothesis."
 TECHNIQUE = "exhaustive enumeration + Hypothesis round-trip/differential testing against stdlib base64 and an independent reference"
+#: thorough tier: seed-dependent tasks are repeated under this many derived seeds (run.py); the listed task functions enumerate fixed domains
+THOROUGH_REPS = 3
+DETERMINISTIC_FNS = ('t_groups', 't_ints', 't_padding', 't_reject')
